@@ -23,6 +23,6 @@ for id in "$@"; do
   echo "$out" | grep -E "^  \[" | head -2 | cut -c1-260
 done
 git checkout -q -- . ; git clean -fdq
-cp $SD/$DEMO $DEST
+mkdir -p $(dirname $DEST); cp $SD/$DEMO $DEST
 eval go test -vet=off -count=1 $TESTARGS >/tmp/vseed-demo-without.log 2>&1 && res demo-without-change passes-as-expected || res demo-without-change "FAILS (unexpected)"
 cd /; git -C /repo worktree remove --force $WT
